@@ -26,6 +26,7 @@ RULE = (
     " Error path: every first tick in which one reading (alone, before or after an ordinary / rejected one) makes sensor_model raise, "
     "the caller catching the error, followed by every second tick of a 16-tick menu: the held estimate must have been predicted over "
     "exactly held time - start time, state and covariance must belong together, and the second tick must be the reference fold from that hold."
+    " The C++ runtime is explored for all four control x calibration instantiations in both tiers."
 )
 ASSUMPTIONS = [
     "consecutive prediction steps are collapsed to their summed dt (the split is C10's business); times compared to 1e-9",
